@@ -180,13 +180,19 @@ func numberFormatRule(p *core.Program, r *core.Report, rule string, entry *ssa.F
 	guarded := false
 	for d := outer.Block(); d != nil && d.Idom() != nil; d = d.Idom() {
 		id := d.Idom()
-		c, ok := eng.EdgeCmp(id, 0)
-		if !ok || id.Succs[0] != d {
+		if len(id.Succs) != 2 {
 			continue
 		}
-		z, isZ := eng.ConstInt(c.Y)
-		if c.Op == token.GTR && isDigitsOperand(p, fn, c.X, digitsField) && isZ && z == 0 {
-			guarded = true
+		// either edge: `if d > 0 { trim }` or `if d <= 0 { return s }; trim`
+		for e := 0; e < 2; e++ {
+			c, ok := eng.EdgeCmp(id, e)
+			if !ok || id.Succs[e] != d || len(d.Preds) != 1 {
+				continue
+			}
+			z, isZ := eng.ConstInt(c.Y)
+			if c.Op == token.GTR && isDigitsOperand(p, fn, c.X, digitsField) && isZ && z == 0 {
+				guarded = true
+			}
 		}
 	}
 	why := ""
